@@ -169,6 +169,45 @@ Definition skipRemainingOnKafkaError {A} (p : P A) : P A := fun sz s =>
   | r => r
   end.
 
+(* read.go readVarInt: bytes are taken one by one (never more than the remaining size) until
+   one is below 0x80; x |= uint64(b&0x7f) << s (a shift of 64 or more gives 0), then the zig-zag
+   decoding int64(x>>1) ^ -(int64(x)&1).  Remaining size exhausted: (0, errShortRead).
+   End of stream: Go maps the io.EOF of the refill to errShortRead; Batch.readMessage then tries
+   to discard the rest of the response, which fails with that same io.EOF, so the observable
+   outcome is the one of an io.EOF: the model reports io.EOF directly. *)
+Fixpoint varint_scan (s : list N) (sz : Z) (shift acc : N) {struct s} : R N :=
+  if sz <? 0 then (inr EPanic, sz, s)                     (* input[:sz] with sz < 0 *)
+  else if sz =? 0 then (inr EShort, sz, s)
+  else
+    match s with
+    | [] => (inr EEOF, sz, [])
+    | b :: t =>
+        let part := if (shift <? 64)%N then ((N.land b 127 * 2 ^ shift) mod M64)%N else 0%N in
+        let acc' := N.lor acc part in
+        if (b <? 128)%N then (inl acc', sz - 1, t) else varint_scan t (sz - 1) (shift + 7)%N acc'
+    end.
+Definition unzigzag64 (x : N) : Z :=
+  Z.lxor (Z.of_N (x / 2)) (if N.odd x then (-1) else 0).
+Definition readVarInt : P Z := fun sz s =>
+  match varint_scan s sz 0 0 with
+  | (inl x, sz', s') => (inl (unzigzag64 x), sz', s')
+  | (inr e, sz', s') => (inr e, sz', s')
+  end.
+
+(* the errShortRead branch of Batch.readMessage: the response was truncated by the broker (or
+   the message set is exhausted): the rest of the response is discarded and the batch ends
+   normally (None); any other error passes *)
+Definition try_short {A} (p : P A) : P (option A) := fun sz s =>
+  match p sz s with
+  | (inl a, sz1, s1) => (inl (Some a), sz1, s1)
+  | (inr EShort, sz1, s1) =>
+      match discardN sz1 sz1 s1 with
+      | (inl _, sz2, s2) => (inl None, sz2, s2)
+      | (inr e, sz2, s2) => (inr e, sz2, s2)
+      end
+  | (inr e, sz1, s1) => (inr e, sz1, s1)
+  end.
+
 (* ---- reference encoder of the same grammar (Kafka protocol guide: INT8..INT64 big-endian,
    BOOLEAN one byte, STRING int16 length (-1 null), BYTES int32 length (-1 null), ARRAY int32
    count (-1 null) then the elements, structs = fields in order) ---- *)
